@@ -163,6 +163,7 @@ type Obligation struct {
 	Output  string
 	SMTFile string
 	Vacuity bool // expected NOT provable (cover)
+	BudgetS int // per-solver time limit override from the contract (0 = tier default)
 	CaseTerms []string // reference-valued entry terms (parameters and their pointer fields) for case splits
 }
 
@@ -237,6 +238,9 @@ func (ex *Exec) oblige(st *State, kind string, props []string, goal, desc string
 	}
 	o := &Obligation{Name: name, Kind: kind, Func: ex.top.FullName(), Props: props, Assumes: as, Goal: goal, Desc: desc, Pos: ex.posString(pos)}
 	o.CaseTerms = ex.caseTerms()
+	if ex.top != nil && ex.top.Spec != nil {
+		o.BudgetS = ex.top.Spec.BudgetS
+	}
 	ex.obls = append(ex.obls, o)
 }
 
